@@ -371,6 +371,10 @@ def run(ctx):
     ctx.guarded('C15-D1', 'correlators.py@derivs', derivs, ctx, mod)
     ctx.guarded('C15-D4', 'correlators.py@m_eff', m_eff, ctx, mod)
     ctx.guarded('C15-D5', 'correlators.py@plateau', plateau, ctx, mod)
+    # the root variants of m_eff call find_root once per timeslice with closures of one code object: no state may survive a call
+    from .. import hiddenstate
+    rm_ = ctx.repo.mod('roots')
+    ctx.guarded('C15-D4', 'roots@hidden-state', hiddenstate.check, ctx, 'C15-D4', rm_, [q for q, _ in rm_.functions() if '.' not in q], 'the effective mass of a timeslice')
     from .. import pat
     f = mod.func('Corr.fit')
     missing = pat.has_all(f, ['fitrange is None', 'fitrange = self.prange', 'fitrange = [0, self.T - 1]'])
